@@ -18,7 +18,7 @@ META = {'claimed': True,
                'allocation/registration is refused, with view and pending state unchanged (C14_reader_wait_failure_clean). 40 theorems. What the models do not carry (which C allocation maps to which '
                'oracle answer inside mpool/elastic internals, failure inside callbacks, leak-freedom through the whole I/O, HTTP, AWS and key-file stacks, no crash) is decided by enumeration on the '
                'compiled code: every allocation index of every operation refused once and persistently (wrapped malloc/realloc/strdup/asprintf), documented return value checked, retry must succeed, '
-               'LeakSanitizer + exit-time block accounting per forked case.',
+               'LeakSanitizer + exit-time block accounting per forked case; the HTTPS entry point (https_request set-up with the real https.c / netbuf_ssl.c / network_ssl*.c linked, every allocation refused, the request cancelled at once); operations that return void (crypto_aesctr_stream / _buf) run with every allocation refused.',
  'level_note': 'Trusted: Coq kernel; hand-written models bound by differential execution; the correspondence of oracle positions to real allocation sites is by enumeration, not proof; LeakSanitizer '
                'for leak verdicts in the I/O stacks. Print Assumptions: closed under the global context.',
  'trusted_base': ['allocation wrappers (--wrap=malloc,realloc,calloc,strdup,...) in the drivers', 'LeakSanitizer'],
